@@ -72,7 +72,7 @@ RULE = (
     "GridFlow, ListBox over SimpleListWalker / SimpleFocusListWalker) x 1..4 children (thorough 1..6) x every "
     "focus position x every slice spelling (start, stop in {None} + [-(n+1), n+1], step in {None, +-1, +-2, +-3}) "
     "x {del; assignment of 0, 1, 2 children to an ordinary slice, of as many as covered to an extended slice}, "
-    "history = focus_position = f, the edit, one arrow key; non-trivial there: the edit changes the list."
+    "history = built with focus f, the edit, one arrow key; non-trivial there: the edit changes the list."
 )
 ASSUMPTIONS = [
     "probe widgets are correct urwid leaf widgets (Widget subclasses with render/rows/keypress/mouse_event)",
@@ -176,6 +176,18 @@ def _opt(o):
     return "w", max(1, int(o[1]) if len(o) > 1 else 1)
 
 
+def urwid_chain(exc):
+    """function names of the traceback frames that lie in urwid, outermost first ('render>calculate_visible>...')"""
+    import traceback
+
+    names = []
+    for fr in traceback.extract_tb(exc.__traceback__):
+        fn = fr.filename.replace("\\", "/")
+        if "/urwid/" in fn and "/verif/" not in fn:
+            names.append(fr.name)
+    return ">".join(names)
+
+
 STATS: dict[str, int] = {}
 
 
@@ -183,12 +195,26 @@ def stat(label):
     STATS[label] = STATS.get(label, 0) + 1
 
 
+@functools.lru_cache(maxsize=None)
+def _known_ids():
+    """ids listed with status "known", read once per process (the files are read-only during a campaign; while
+    checks are being built another writer may be half way through a file: retry instead of failing)"""
+    import time
+
+    for _attempt in range(20):
+        try:
+            return frozenset(load_known_ids(PROPERTY))
+        except ValueError:  # json.JSONDecodeError
+            time.sleep(0.25)
+    return frozenset(load_known_ids(PROPERTY))
+
+
 class Harness:
     def __init__(self, case):
         self.case = case
         self.log = []
         self.npid = 0
-        self.known = {k: p for k, p in KNOWN.items() if k in load_known_ids(PROPERTY)}
+        self.known = {k: p for k, p in KNOWN.items() if k in _known_ids()}
         self.deferred = []
         self.saved = None
         self.saved_gen = 0
@@ -314,6 +340,8 @@ class Harness:
             w = urwid.ListBox(urwid.SimpleFocusListWalker(widgets))
         else:
             w = urwid.ListBox(urwid.SimpleListWalker(widgets))
+        if built and spec.get("focus") is not None:
+            w.body.set_focus(int(spec["focus"]) % len(built))  # the walker's own API, before any render
         return Node("lb", "B", w, [b[0] for b in built])
 
     def _mk_frame(self, spec, mode):
@@ -486,7 +514,7 @@ class Harness:
                 # subject, treated like the same error from render() below - out of scope, counted
                 stat(f"out-of-scope:{what}:ListBoxError")
                 raise Discard() from e
-            v = Violation(f"exception:{type(e).__name__}@{urwid_frame(e)}", f"{type(e).__name__}: {e}")
+            v = Violation(f"exception:{type(e).__name__}@{urwid_frame(e)}", f"{type(e).__name__}: {e} [via {urwid_chain(e)}]")
             for pred in self.known.values():
                 try:
                     if pred("ops", self.case, v):
@@ -1377,18 +1405,18 @@ def slice_sweep_cases(max_n):
     """Every list-like container kind x 1..max_n children x every focus position x every spelling of
     a slice (start, stop in {None} + [-(n+1), n+1]: omitted, from either end, one beyond either end;
     step in {None, +-1, +-2, +-3}) x {del, assignment}.  An ordinary slice is assigned 0, 1 and 2 new
-    children, an extended slice the number it covers.  History: focus_position = f; the edit; one
-    arrow key."""
+    children, an extended slice the number it covers.  History: container built with focus f (ListBox:
+    walker.set_focus(f)); the edit; one arrow key."""
     new = [{"o": ["w", 1], "n": {"k": "p", "sel": 1, "keys": [], "rows": 1}}, {"o": ["w", 1], "n": {"k": "p", "sel": 0, "keys": [], "rows": 1}}]
     for kind in SWEEP_KINDS:
         mode = "F" if kind == "grid" else "B"
         key = "right" if kind in ("cols", "grid") else "down"
         for n in range(1, max_n + 1):
-            spec = {"k": kind.split("-")[0], "c": [{"o": ["w", 1], "n": _sweep_probe(i)} for i in range(n)], "focus": None}
-            if kind.startswith("lb"):
-                spec["walker"] = kind[-1]
             bounds = [None, *range(-(n + 1), n + 2)]
             for f in range(n):
+                spec = {"k": kind.split("-")[0], "c": [{"o": ["w", 1], "n": _sweep_probe(i)} for i in range(n)], "focus": f}
+                if kind.startswith("lb"):
+                    spec["walker"] = kind[-1]
                 for start in bounds:
                     for stop in bounds:
                         for step in SWEEP_STEPS:
@@ -1402,18 +1430,18 @@ def slice_sweep_cases(max_n):
                                     "tree": spec,
                                     "mode": mode,
                                     "size": [12, 6],
-                                    "ops": [["focus", 0, ["v", f]], ["xslice", 0, start, stop, step, how, items], ["key", key]],
+                                    "ops": [["xslice", 0, start, stop, step, how, items], ["key", key]],
                                 }
 
 
 def _sweep_nontrivial(case):
     """the edit changes the list: the slice covers a child or children are assigned"""
-    op = case["ops"][1]
+    op = case["ops"][0]
     return bool(op[6]) or len(range(*slice(op[2], op[3], op[4]).indices(len(case["tree"]["c"])))) > 0
 
 
 def _sweep_classify(case):
-    op = case["ops"][1]
+    op = case["ops"][0]
     stp = op[4]
     return [
         f"sweep:{case['tree']['k']}:n={len(case['tree']['c'])}",
@@ -1463,7 +1491,24 @@ def _k_empty_gridflow(sub, case, v):
     )
 
 
+def _k_listbox_pending_stale(sub, case, v):
+    """ListBox.set_focus() remembers the OLD focus position until the next render; if the walker is edited
+    in between so that this position no longer exists, _set_focus_complete's "restore old focus temporarily"
+    step fails.  Matched by the call chain (..._set_focus_complete, failing there or in the set_focus it
+    calls), never by the exception type alone (MonitoredFocusList's 'focus index is out of range' has other causes)."""
+    if not v.clause.startswith("exception:") or " [via " not in v.message:
+        return False
+    chain = v.message.rsplit(" [via ", 1)[1].rstrip("]").split(">")
+    if "_set_focus_complete" not in chain:
+        return False
+    tail = chain[chain.index("_set_focus_complete") + 1 :]
+    if tail == []:
+        return v.clause == "exception:TypeError@widget/listbox.py:_set_focus_complete" and "NoneType" in v.message
+    return tail in (["set_focus"], ["set_focus", "focus"]) and v.clause.startswith("exception:IndexError@")
+
+
 KNOWN = {
+    "C08-listbox-pending-focus-stale": _k_listbox_pending_stale,
     "C08-empty-gridflow-cursor": _k_empty_gridflow,
     "C08-empty-columns-input": _k_empty_columns,
     "C08-gridflow-selectable-stale": _k_gridflow_selectable,
